@@ -320,6 +320,7 @@ class Runner:
         except BaseException as e:  # noqa: BLE001
             outcome = exc_class(e)
         after = snapshot(self.d)
+        self.step_before, self.step_after, self.step_ub_before = before, after, ub_before
         ro = self.info["mode"] == "r" or ro_expected
         self.check_changes(before, after, ub_before, n, kind, ro=ro, allow_replace=False)
         if self.info["mode"] == "r" and kind != "close" and outcome == "ok":
@@ -367,6 +368,12 @@ class Runner:
             outcome = self.step("discard", rec.discard_patch, cmd)
             if outcome == "ok":
                 self.stats["discards"] += 1
+                b = {fn for fn in self.step_before if fn.endswith(".ih5")}
+                a = {fn for fn in self.step_after if fn.endswith(".ih5")}
+                unc = {fn for fn, ub in self.step_ub_before.items() if rec_name_of(fn) == n and not ub["committed"]}
+                if b - a != unc or a - b:
+                    self.problem(f"discard_patch removed {sorted(b - a)} (added {sorted(a - b)}); exactly the uncommitted "
+                                 f"container {sorted(unc)} must go")
                 dmp = safe_dump(rec)
                 if n in self.commit_dump and dmp != self.commit_dump[n]:
                     a, b = self.commit_dump[n], dmp
@@ -505,6 +512,49 @@ class Runner:
             self.rng.shuffle(q)
             self.session_r(cls_name, ["list", q])
 
+    def do_discard_perms(self, cmd):
+        """Record n has an uncommitted patch on top of committed containers: reopen writable by the
+        explicit list in every order, discard (sometimes after writing more), restore the uncommitted
+        patch, reopen by name / list; finally reopen by list and commit."""
+        _, cls_name, n, maxperms = cmd
+        if self.rec is not None or situation(n, ublocks(self.d)) != "upatch":
+            return
+        fs = self.files_of(n)
+        perms = [list(p) for p in itertools.permutations(fs)]
+        if len(perms) > maxperms:
+            self.rng.shuffle(perms)
+            perms = perms[:maxperms]
+        for i, p in enumerate(perms):
+            if self.rec is not None:
+                return
+            self.do_open(["open", cls_name, "r+" if i % 2 == 0 else "a", ["list", p], self.fresh(), self.fresh()])
+            if self.rec is None:
+                continue
+            if i % 3 == 1:
+                self.do_write(["write", f"tk{self.fresh()}", None])
+            self.do_simple(["discard"])
+            self.do_simple(["cp", self.fresh()])
+            self.do_write(["write", f"tk{self.fresh()}", None])
+            self.do_simple(["close", "F"])
+            self.do_drop(["drop"])
+            self.session_r(cls_name, ["name", n])
+            if i % 4 == 0:
+                q = self.files_of(n)
+                self.rng.shuffle(q)
+                self.session_r(cls_name, ["list", q])
+        # sibling: reopen by list with the uncommitted container first, commit
+        ubs = ublocks(self.d)
+        fs = self.files_of(n)
+        unc = [fn for fn in fs if not ubs[fn]["committed"]]
+        p = unc + [fn for fn in fs if fn not in unc]
+        self.do_open(["open", cls_name, "r+", ["list", p], self.fresh(), self.fresh()])
+        if self.rec is not None:
+            self.do_simple(["commit"])
+            self.do_simple(["close", "T"])
+            self.do_drop(["drop"])
+            self.session_r(cls_name, ["name", n])
+            self.session_r(cls_name, ["list", list(reversed(self.files_of(n)))])
+
     def run(self, cmds):
         for cmd in cmds:
             k = cmd[0]
@@ -524,6 +574,8 @@ class Runner:
                 self.do_reopen_sublists(cmd)
             elif k == "list-sessions":
                 self.do_list_sessions(cmd)
+            elif k == "discard-perms":
+                self.do_discard_perms(cmd)
             else:
                 raise ValueError(k)
         if self.rec is not None:
